@@ -623,8 +623,10 @@ def probe_multiplier_sequence():
                 bs = set(bases) if bases is not None else {min(resolutions)}
                 ok = bool(np.all(np.diff(resn) > 0)) and set(resn.tolist()) == set(resolutions) | bs
                 for i in range(len(resn)):
-                    if pred[i] == -1:
-                        ok = ok and int(resn[i]) in bs
+                    if int(resn[i]) in bs:
+                        ok = ok and pred[i] == -1          # a supplied base is copied, never re-derived (F22)
+                    elif pred[i] == -1:
+                        ok = False
                     else:
                         ok = ok and 0 <= pred[i] < i and resn[pred[i]] * mult[i] == resn[i] and mult[i] >= 2
                 if not ok:
